@@ -473,3 +473,8 @@ def same_outcome(io, mo):
     if io[0] == "raise":
         return mo[0] == "raise" and mo[1] == io[1]
     return False
+
+
+def escaped(ddl):
+    """self.data as the model receives it: what Parser.__init__ stores, decoded"""
+    return ddl.replace("\r\n", "\n").encode("unicode_escape").decode("utf-8")
